@@ -603,7 +603,7 @@ def make_spaced(spacing, n_blocks=3, tail=0):
     return builder
 
 
-def make_clearcp(pos, cleanup_shape="finalize", inplan_pause_after=None):
+def make_clearcp(pos, cleanup_shape="finalize", inplan_pause_after=None, toggle_rewindable=False, second_run=False):
     """clear_checkpoint after `pos` points; the rest of the run is non-resumable; cleanup in a finally.
     inplan_pause_after=k: the plan itself asks for a pause (Msg('pause')) after the k-th message of the section."""
 
@@ -630,8 +630,20 @@ def make_clearcp(pos, cleanup_shape="finalize", inplan_pause_after=None):
 
             def section():
                 for k in range(pos, pos + 2):
+                    if toggle_rewindable and k == pos:
+                        # switching rewinding off and on again does not bring the cleared checkpoint back
+                        yield Msg("rewindable", None, False)
+                        yield Msg("sleep", None, 0.02)
+                        yield Msg("rewindable", None, True)
                     yield from point(k)
                     yield Msg("sleep", None, 0.05)
+                if second_run:
+                    # closing the run (and opening another one) does not bring the cleared checkpoint back either
+                    yield Msg("close_run")
+                    yield Msg("sleep", None, 0.03)
+                    yield Msg("open_run")
+                    yield from point(pos + 2)
+                    yield Msg("sleep", None, 0.03)
 
             for i, m in enumerate(section()):
                 if inplan_pause_after == i:
@@ -838,6 +850,8 @@ CORPUS = {
     "clearcp0": make_clearcp(0),
     "clearcp1": make_clearcp(1),
     "clearcp2": make_clearcp(2, "tryfinally"),
+    "clearcp_rw": make_clearcp(1, "finalize", toggle_rewindable=True),
+    "clearcp_2runs": make_clearcp(1, "tryfinally", second_run=True),
     **{f"clearcp_ip{pos}_{k}": make_clearcp(pos, "finalize" if (pos + k) % 2 == 0 else "tryfinally", inplan_pause_after=k)
        for pos in (0, 1, 2) for k in range(0, 16)},
     "spaced1": make_spaced(1, 4),
